@@ -197,16 +197,17 @@ theorem served_sub_fired {evs : List Event} {i : Nat} (h : i ∈ served evs) : i
 
 /-- What holds of the state of a protocol object created by `init` and of everything it has emitted so far. -/
 structure Inv (v : Variant) (s : State) (evs : List Event) : Prop where
-  tid_eq : s.tid = s.nextId % 65536
-  sents_eq : sents evs = (List.range s.nextId).map (fun i => (i, (i + 1) % 65536))
-  key_eq : ∀ p ∈ s.pending, p.1 = (p.2.id + 1) % 65536
+  /-- requests are written once each, numbered in order -/
+  sent_ids : (sents evs).map (·.1) = List.range s.nextId
+  /-- a table entry is stored under the transaction id that was written for its request -/
+  key_sent : ∀ p ∈ s.pending, (p.2.id, p.1) ∈ sents evs
   fired_lt : ∀ i ∈ fired evs, i < s.nextId
   pend_lt : ∀ p ∈ s.pending, p.2.id < s.nextId
   fired_nodup : (fired evs).Nodup
   pend_nodup : (pendingIds s).Nodup
   disjoint : ∀ p ∈ s.pending, p.2.id ∉ fired evs
   keys_nodup : v = .dict → (keys s).Nodup
-  cb_tid : v = .dict → ∀ c ∈ cbs evs, c.2.1 = (c.1 + 1) % 65536
+  cb_sent : v = .dict → ∀ c ∈ cbs evs, (c.1, c.2.1) ∈ sents evs
   sorted : v = .fifo → (served evs ++ pendingIds s).Pairwise (· < ·)
   no_exc : ∀ e ∈ evs, e.isExc = false
 
@@ -214,12 +215,12 @@ theorem inv_init (v : Variant) : Inv v init [] := by
   constructor <;> simp [init, sents, fired, cbs, served, pendingIds, keys]
 
 /-- the state after `getNextTID` (and the bookkeeping of the request number) -/
-def bump (s : State) : State := { s with tid := (s.tid + 1) % 65536, nextId := s.nextId + 1 }
+def bump (v : Variant) (s : State) : State := { s with tid := allocTid v s, nextId := s.nextId + 1 }
 
 theorem inv_setConnected {v : Variant} {s : State} {evs : List Event} (b : Bool) (h : Inv v s evs) :
     Inv v { s with connected := b } evs := by
-  obtain ⟨h1, h2, h3, h4, h5, h6, h7, h8, h9, h10, h11, h12⟩ := h
-  exact ⟨h1, h2, h3, h4, h5, h6, h7, h8, h9, h10, h11, h12⟩
+  obtain ⟨h2, h3, h4, h5, h6, h7, h8, h9, h10, h11, h12⟩ := h
+  exact ⟨h2, h3, h4, h5, h6, h7, h8, h9, h10, h11, h12⟩
 
 /-- `close()`: only the flag changes; `transport.close()` is not an event any observation looks at -/
 theorem inv_close {v : Variant} {s : State} {evs : List Event} (hc : Bool) (h : Inv v s evs) :
@@ -228,9 +229,9 @@ theorem inv_close {v : Variant} {s : State} {evs : List Event} (hc : Bool) (h : 
   cases hc with
   | false => simpa [close] using h'
   | true =>
-    obtain ⟨h1, h2, h3, h4, h5, h6, h7, h8, h9, h10, h11, h12⟩ := h'
+    obtain ⟨h2, h3, h4, h5, h6, h7, h8, h9, h10, h11, h12⟩ := h'
     simp only [close, if_true]
-    refine ⟨h1, by simpa using h2, h3, by simpa using h4, h5, by simpa using h6, h7, by simpa using h8, h9,
+    refine ⟨by simpa using h2, by simpa using h3, by simpa using h4, h5, by simpa using h6, h7, by simpa using h8, h9,
       by simpa using h10, by simpa using h11, ?_⟩
     intro e he
     simp only [List.mem_append, List.mem_cons, List.mem_nil_iff, or_false] at he
@@ -239,15 +240,15 @@ theorem inv_close {v : Variant} {s : State} {evs : List Event} (hc : Bool) (h : 
     · subst he; rfl
 
 theorem inv_bump_fail {v : Variant} {s : State} {evs : List Event} (h : Inv v s evs) :
-    Inv v (bump s) (evs ++ [.sent s.nextId ((s.tid + 1) % 65536), .errback s.nextId .notConnected]) := by
-  obtain ⟨h1, h2, h3, h4, h5, h6, h7, h8, h9, h10, h11, h12⟩ := h
+    Inv v (bump v s) (evs ++ [.sent s.nextId (allocTid v s), .errback s.nextId .notConnected]) := by
+  obtain ⟨h2, h3, h4, h5, h6, h7, h8, h9, h10, h11, h12⟩ := h
   have hfresh : s.nextId ∉ fired evs := fun hm => Nat.lt_irrefl _ (h4 _ hm)
   constructor
-  · simp only [bump]; omega
-  · simp only [bump, sents_append, h2, List.range_succ, List.map_append, List.map_cons, List.map_nil]
-    simp only [sents_sent, sents_eb, sents_nil]
-    rw [h1]; congr 3; omega
-  · exact h3
+  · simp only [bump, sents_append, List.map_append, h2, List.range_succ, sents_sent, sents_eb, sents_nil,
+      List.map_cons, List.map_nil]
+  · intro p hp
+    simp only [sents_append, List.mem_append]
+    exact Or.inl (h3 p hp)
   · intro i hi
     simp only [fired_append, List.mem_append] at hi
     simp only [bump]
@@ -270,7 +271,7 @@ theorem inv_bump_fail {v : Variant} {s : State} {evs : List Event} (h : Inv v s 
   · intro hv c hc
     simp only [cbs_append, List.mem_append] at hc
     rcases hc with hc | hc
-    · exact h10 hv c hc
+    · simp only [sents_append, List.mem_append]; exact Or.inl (h10 hv c hc)
     · simp at hc
   · intro hv
     have := h11 hv
@@ -283,15 +284,15 @@ theorem inv_bump_fail {v : Variant} {s : State} {evs : List Event} (h : Inv v s 
     · subst he; rfl
 
 theorem inv_bump_add {v : Variant} {s : State} {evs : List Event} (r : Req) (h : Inv v s evs) :
-    Inv v (add v (bump s) ((s.tid + 1) % 65536) ⟨s.nextId, r⟩) (evs ++ [.sent s.nextId ((s.tid + 1) % 65536)]) := by
-  obtain ⟨h1, h2, h3, h4, h5, h6, h7, h8, h9, h10, h11, h12⟩ := h
+    Inv v (add v (bump v s) (allocTid v s) ⟨s.nextId, r⟩) (evs ++ [.sent s.nextId (allocTid v s)]) := by
+  obtain ⟨h2, h3, h4, h5, h6, h7, h8, h9, h10, h11, h12⟩ := h
   have hfresh : s.nextId ∉ fired evs := fun hm => Nat.lt_irrefl _ (h4 _ hm)
   replace h7 : (s.pending.map (·.2.id)).Nodup := h7
   replace h9 : v = .dict → (s.pending.map (·.1)).Nodup := h9
   have hfreshp : ∀ p ∈ s.pending, p.2.id ≠ s.nextId := fun p hp e => by have := h5 p hp; omega
-  obtain ⟨l1, l2, hadd, hcase⟩ := add_eq v (bump s) ((s.tid + 1) % 65536) ⟨s.nextId, r⟩
+  obtain ⟨l1, l2, hadd, hcase⟩ := add_eq v (bump v s) (allocTid v s) ⟨s.nextId, r⟩
   rw [hadd]
-  have hbp : (bump s).pending = s.pending := rfl
+  have hbp : (bump v s).pending = s.pending := rfl
   rw [hbp] at hcase
   have hsub : ∀ p ∈ l1 ++ l2, p ∈ s.pending := by
     intro p hp
@@ -301,8 +302,8 @@ theorem inv_bump_add {v : Variant} {s : State} {evs : List Event} (r : Req) (h :
       rcases hp with hp | hp
       · exact Or.inl hp
       · exact Or.inr (Or.inr hp)
-  have hmem : ∀ p ∈ l1 ++ (((s.tid + 1) % 65536, (⟨s.nextId, r⟩ : Entry)) :: l2),
-      p = ((s.tid + 1) % 65536, (⟨s.nextId, r⟩ : Entry)) ∨ p ∈ s.pending := by
+  have hmem : ∀ p ∈ l1 ++ ((allocTid v s, (⟨s.nextId, r⟩ : Entry)) :: l2),
+      p = (allocTid v s, (⟨s.nextId, r⟩ : Entry)) ∨ p ∈ s.pending := by
     intro p hp
     simp only [List.mem_append, List.mem_cons] at hp
     rcases hp with hp | hp | hp
@@ -310,14 +311,13 @@ theorem inv_bump_add {v : Variant} {s : State} {evs : List Event} (r : Req) (h :
     · exact Or.inl hp
     · exact Or.inr (hsub p (by simp [hp]))
   constructor
-  · simp only [bump]; omega
-  · simp only [bump, sents_append, h2, List.range_succ, List.map_append, List.map_cons, List.map_nil,
-      sents_sent, sents_nil]
-    rw [h1]; congr 3; omega
+  · simp only [bump, sents_append, List.map_append, h2, List.range_succ, sents_sent, sents_nil,
+      List.map_cons, List.map_nil]
   · intro p hp
+    simp only [sents_append, List.mem_append, sents_sent, sents_nil, List.mem_cons, List.mem_nil_iff, or_false]
     rcases hmem p hp with hp | hp
-    · subst hp; simp only; omega
-    · exact h3 p hp
+    · subst hp; exact Or.inr rfl
+    · exact Or.inl (h3 p hp)
   · intro i hi
     simp only [fired_append, List.mem_append] at hi
     simp only [bump]
@@ -376,7 +376,7 @@ theorem inv_bump_add {v : Variant} {s : State} {evs : List Event} (r : Req) (h :
   · intro hv c hc
     simp only [cbs_append, List.mem_append] at hc
     rcases hc with hc | hc
-    · exact h10 hv c hc
+    · simp only [sents_append, List.mem_append]; exact Or.inl (h10 hv c hc)
     · simp at hc
   · intro hv
     have h11' := h11 hv
@@ -408,7 +408,7 @@ theorem inv_pop {v : Variant} {s : State} {evs : List Event} (h : Inv v s evs)
     (hf : v = .fifo → l1 = []) (ev : Event)
     (hev : ev = .errback e.id .lost ∨ ∃ t tag, ev = .callback e.id t tag ∧ (v = .dict → t = k)) :
     Inv v { s with pending := l1 ++ l2 } (evs ++ [ev]) := by
-  obtain ⟨h1, h2, h3, h4, h5, h6, h7, h8, h9, h10, h11, h12⟩ := h
+  obtain ⟨h2, h3, h4, h5, h6, h7, h8, h9, h10, h11, h12⟩ := h
   replace h7 : (s.pending.map (·.2.id)).Nodup := h7
   replace h9 : v = .dict → (s.pending.map (·.1)).Nodup := h9
   have hsub : ∀ p ∈ l1 ++ l2, p ∈ s.pending := by
@@ -434,9 +434,8 @@ theorem inv_pop {v : Variant} {s : State} {evs : List Event} (h : Inv v s evs)
     · exact h7.2.2 p.2.id (List.mem_map.2 ⟨p, hp', rfl⟩) e.id (by simp) heq
     · exact h7.2.1.1 (by rw [← heq]; exact List.mem_map.2 ⟨p, hp', rfl⟩)
   constructor
-  · exact h1
   · simpa [hsents] using h2
-  · intro p hp'; exact h3 p (hsub p hp')
+  · intro p hp'; simpa [hsents] using h3 p (hsub p hp')
   · intro i hi
     simp only [fired_append, hfired, List.mem_append, List.mem_cons, List.mem_nil_iff, or_false] at hi
     rcases hi with hi | hi
@@ -463,7 +462,7 @@ theorem inv_pop {v : Variant} {s : State} {evs : List Event} (h : Inv v s evs)
   · intro hv c hc
     simp only [cbs_append, List.mem_append] at hc
     rcases hc with hc | hc
-    · exact h10 hv c hc
+    · simpa [hsents] using h10 hv c hc
     · rcases hev with hev | ⟨t, tag, hev, ht⟩
       · subst hev; simp at hc
       · subst hev
@@ -471,7 +470,7 @@ theorem inv_pop {v : Variant} {s : State} {evs : List Event} (h : Inv v s evs)
         subst hc
         simp only
         rw [ht hv]
-        exact h3 _ hin
+        simpa [hsents] using h3 _ hin
   · intro hv
     have := h11 hv
     have hl1 := hf hv
@@ -489,11 +488,11 @@ theorem inv_pop {v : Variant} {s : State} {evs : List Event} (h : Inv v s evs)
 /-! ### unfolding the protocol operations -/
 
 theorem issue_connected {v : Variant} {s : State} (r : Req) (h : s.connected = true) :
-    issue v s r = (add v (bump s) ((s.tid + 1) % 65536) ⟨s.nextId, r⟩, [.sent s.nextId ((s.tid + 1) % 65536)]) := by
+    issue v s r = (add v (bump v s) (allocTid v s) ⟨s.nextId, r⟩, [.sent s.nextId (allocTid v s)]) := by
   simp [issue, h, bump]
 
 theorem issue_down {v : Variant} {s : State} (r : Req) (h : s.connected = false) :
-    issue v s r = (bump s, [.sent s.nextId ((s.tid + 1) % 65536), .errback s.nextId .notConnected]) := by
+    issue v s r = (bump v s, [.sent s.nextId (allocTid v s), .errback s.nextId .notConnected]) := by
   simp [issue, h, bump]
 
 theorem execute_connected {v : Variant} {s : State} (r : Req) (h : s.connected = true) :
@@ -504,7 +503,7 @@ theorem execute_down {v : Variant} {s : State} (r : Req) (h : s.connected = fals
     execute v s r =
       match r.errK with
       | none => issue v s r
-      | some k => ((execute v (bump s) k).1, (issue v s r).2 ++ (execute v (bump s) k).2) := by
+      | some k => ((execute v (bump v s) k).1, (issue v s r).2 ++ (execute v (bump v s) k).2) := by
   cases r <;> simp [execute, h, Req.errK, issue_down]
 
 theorem inv_issue {v : Variant} {s : State} {evs : List Event} (r : Req) (h : Inv v s evs) :
@@ -513,7 +512,7 @@ theorem inv_issue {v : Variant} {s : State} {evs : List Event} (r : Req) (h : In
   | true => rw [issue_connected r hc]; exact inv_bump_add r h
   | false => rw [issue_down r hc]; exact inv_bump_fail h
 
-theorem bump_connected (s : State) : (bump s).connected = s.connected := rfl
+theorem bump_connected (v : Variant) (s : State) : (bump v s).connected = s.connected := rfl
 
 theorem inv_execute {v : Variant} (r : Req) : ∀ {s : State} {evs : List Event}, Inv v s evs →
     Inv v (execute v s r).1 (evs ++ (execute v s r).2) := by
@@ -632,11 +631,11 @@ theorem execute_down_spec {v : Variant} (r : Req) : ∀ (s : State), s.connected
     rw [execute_down r hc, hk]
     obtain ⟨b1, b2, b3, b4, b5⟩ := base s r hc
     rw [issue_down r hc] at b1 b2 b3 b4 b5 ⊢
-    obtain ⟨i1, i2, i3, i4, i5⟩ := ih (bump s) b1
+    obtain ⟨i1, i2, i3, i4, i5⟩ := ih (bump v s) b1
     refine ⟨i1, by rw [i2]; exact b2, downOK_append b3 i3, by simp only at b4 ⊢; omega, ?_⟩
     intro i h1 h2
     simp only [List.mem_append]
-    by_cases hi : i < (bump s).nextId
+    by_cases hi : i < (bump v s).nextId
     · exact Or.inl (b5 i h1 hi)
     · exact Or.inr (i5 i (by omega) h2)
   induction r with
@@ -855,64 +854,158 @@ theorem flat_runSeg {v : Variant} : ∀ (ops : List Op) (s : State), Spec.flat (
 
 /-! ### "outstanding" (defined on the trace) versus the transaction table -/
 
-theorem mem_outstanding {v : Variant} {s : State} {evs : List Event} (h : Inv v s evs) (p : Nat × Nat) :
-    p ∈ Spec.outstanding evs ↔ p.1 < s.nextId ∧ p.2 = (p.1 + 1) % 65536 ∧ p.1 ∉ fired evs := by
+theorem mem_outstanding (evs : List Event) (p : Nat × Nat) :
+    p ∈ Spec.outstanding evs ↔ p ∈ sents evs ∧ p.1 ∉ fired evs := by
   have hcont : ∀ i : Nat, (!(fired evs).contains i) = true ↔ i ∉ fired evs := by intro i; simp
-  simp only [Spec.outstanding, List.mem_filter, h.sents_eq, List.mem_map, List.mem_range, hcont]
-  constructor
-  · rintro ⟨⟨i, hi, rfl⟩, hf⟩
-    exact ⟨hi, rfl, hf⟩
-  · rintro ⟨h1, h2, h3⟩
-    refine ⟨⟨p.1, h1, ?_⟩, h3⟩
-    rw [← h2]
+  simp only [Spec.outstanding, List.mem_filter, hcont]
 
 theorem sents_length {v : Variant} {s : State} {evs : List Event} (h : Inv v s evs) :
     (sents evs).length = s.nextId := by
-  rw [h.sents_eq]; simp
+  have := congrArg List.length h.sent_ids
+  simpa using this
+
+theorem sent_id_lt {v : Variant} {s : State} {evs : List Event} (h : Inv v s evs) {p : Nat × Nat}
+    (hp : p ∈ sents evs) : p.1 < s.nextId := by
+  have : p.1 ∈ (sents evs).map (·.1) := List.mem_map.2 ⟨p, hp, rfl⟩
+  rw [h.sent_ids] at this
+  exact List.mem_range.1 this
+
+theorem fst_unique {l : List (Nat × Nat)} (hn : (l.map (·.1)).Nodup) {a b b' : Nat}
+    (h1 : (a, b) ∈ l) (h2 : (a, b') ∈ l) : b = b' := by
+  induction l with
+  | nil => simp at h1
+  | cons x r ih =>
+    simp only [List.map_cons, List.nodup_cons] at hn
+    simp only [List.mem_cons] at h1 h2
+    rcases h1 with h1 | h1 <;> rcases h2 with h2 | h2
+    · rw [← h1] at h2; exact (Prod.mk.inj h2).2.symm ▸ rfl
+    · exfalso; apply hn.1; rw [← h1]; exact List.mem_map.2 ⟨_, h2, rfl⟩
+    · exfalso; apply hn.1; rw [← h2]; exact List.mem_map.2 ⟨_, h1, rfl⟩
+    · exact ih hn.2 h1 h2
+
+/-- the transaction id written for a request is unique -/
+theorem sent_unique {v : Variant} {s : State} {evs : List Event} (h : Inv v s evs) {i t t' : Nat}
+    (h1 : (i, t) ∈ sents evs) (h2 : (i, t') ∈ sents evs) : t = t' :=
+  fst_unique (by rw [h.sent_ids]; exact List.nodup_range) h1 h2
 
 /-- every entry of the table is outstanding on the trace, under the transaction id that is its key -/
 theorem pending_outstanding {v : Variant} {s : State} {evs : List Event} (h : Inv v s evs)
     {p : Nat × Entry} (hp : p ∈ s.pending) : (p.2.id, p.1) ∈ Spec.outstanding evs := by
-  rw [mem_outstanding h]
-  exact ⟨h.pend_lt p hp, h.key_eq p hp, h.disjoint p hp⟩
+  rw [mem_outstanding]
+  exact ⟨h.key_sent p hp, h.disjoint p hp⟩
 
 /-- no request has been dropped: everything written is either fired or still in the table -/
 def Complete (s : State) (evs : List Event) : Prop := ∀ i, i < s.nextId → i ∈ fired evs ∨ i ∈ pendingIds s
 
 /-- the transaction id `getNextTID` will produce next is not a key of the table -/
-def Fresh (v : Variant) (s : State) : Prop := v = .dict → (s.tid + 1) % 65536 ∉ keys s
+def Fresh (v : Variant) (s : State) : Prop := v = .dict → allocTid v s ∉ keys s
 
 theorem complete_init : Complete init [] := by intro i hi; simp [init] at hi
 
 theorem outstanding_pending {v : Variant} {s : State} {evs : List Event} (h : Inv v s evs) (hc : Complete s evs)
     {p : Nat × Nat} (hp : p ∈ Spec.outstanding evs) : ∃ e, (p.2, e) ∈ s.pending ∧ e.id = p.1 := by
-  rw [mem_outstanding h] at hp
-  obtain ⟨h1, h2, h3⟩ := hp
-  rcases hc p.1 h1 with hf | hf
+  rw [mem_outstanding] at hp
+  obtain ⟨h1, h3⟩ := hp
+  rcases hc p.1 (sent_id_lt h h1) with hf | hf
   · exact absurd hf h3
   · simp only [pendingIds, List.mem_map] at hf
     obtain ⟨q, hq, he⟩ := hf
     refine ⟨q.2, ?_, he⟩
-    have := h.key_eq q hq
-    rw [he, ← h2] at this
+    have hs := h.key_sent q hq
+    rw [he] at hs
+    have : q.1 = p.2 := sent_unique h hs h1
     rw [← this]; exact hq
 
-/-- inside the no-wrap scope the next transaction id is fresh -/
-theorem fresh_of_noWrap {v : Variant} {s : State} {evs : List Event} (h : Inv v s evs)
-    (hw : Spec.NoWrap evs) : Fresh v s := by
-  intro _ hm
-  simp only [keys, List.mem_map] at hm
-  obtain ⟨p, hp, hk⟩ := hm
-  have h1 := hw _ (pending_outstanding h hp)
-  rw [sents_length h] at h1
-  have h2 := h.key_eq p hp
-  have h3 := h.pend_lt p hp
-  have h4 := h.tid_eq
-  simp only at h1
+/-! ### the repaired allocation: an id that is still pending is never handed out (while there is a free one) -/
+
+/-- a duplicate-free list contained in another one is not longer -/
+theorem sub_len : ∀ (a l : List Nat), a.Nodup → (∀ x ∈ a, x ∈ l) → a.length ≤ l.length := by
+  intro a
+  induction a with
+  | nil => intro l _ _; exact Nat.zero_le _
+  | cons x a ih =>
+    intro l hn hs
+    simp only [List.nodup_cons] at hn
+    have hx : x ∈ l := hs x (by simp)
+    have := ih (l.erase x) hn.2 (fun y hy => by
+      have hne : y ≠ x := fun e => hn.1 (e ▸ hy)
+      exact (List.mem_erase_of_ne hne).2 (hs y (by simp [hy])))
+    rw [List.length_erase_of_mem hx] at this
+    have hpos : 0 < l.length := List.length_pos_of_mem hx
+    simp only [List.length_cons]
+    omega
+
+/-- if the loop ends on an id that is in the table, every candidate it looked at (and the last one) is -/
+theorem skipLoop_all (pending : List (Nat × Entry)) : ∀ (n t : Nat), t < 65536 →
+    skipLoop pending n t ∈ pending.map (·.1) → ∀ i, i ≤ n → (t + i) % 65536 ∈ pending.map (·.1) := by
+  intro n
+  induction n with
+  | zero =>
+    intro t ht h i hi
+    have : i = 0 := by omega
+    subst this
+    simp only [skipLoop] at h
+    rw [Nat.add_zero, Nat.mod_eq_of_lt ht]; exact h
+  | succ n ih =>
+    intro t ht h i hi
+    simp only [skipLoop] at h
+    by_cases hm : t ∈ pending.map (·.1)
+    · rw [if_pos hm] at h
+      cases i with
+      | zero => rw [Nat.add_zero, Nat.mod_eq_of_lt ht]; exact hm
+      | succ i =>
+        have := ih (nextTid t) (by unfold nextTid; omega) h i (by omega)
+        have e : (nextTid t + i) % 65536 = (t + (i + 1)) % 65536 := by unfold nextTid; omega
+        rw [← e]; exact this
+    · rw [if_neg hm] at h; exact absurd h hm
+
+theorem cand_nodup (t n : Nat) (hn : n ≤ 65536) : ((List.range n).map (fun i => (t + i) % 65536)).Nodup := by
+  unfold List.Nodup
+  rw [List.pairwise_map]
+  refine List.Pairwise.imp_of_mem ?_ List.pairwise_lt_range
+  intro a b ha hb hab
+  simp only [List.mem_range] at ha hb
   omega
 
-theorem complete_bump_fail {s : State} {evs : List Event} (hc : Complete s evs) :
-    Complete (bump s) (evs ++ [.sent s.nextId ((s.tid + 1) % 65536), .errback s.nextId .notConnected]) := by
+/-- **the repaired `getNextTID` returns an id that is not pending whenever the table holds fewer than 65536
+    entries** (pigeonhole: the loop runs over all 65536 ids) -/
+theorem alloc_fresh (v : Variant) (s : State) (hroom : s.pending.length < 65536) : Fresh v s := by
+  intro hv hm
+  subst hv
+  simp only [allocTid, keys] at hm
+  have hall := skipLoop_all s.pending 65535 (nextTid s.tid) (by unfold nextTid; omega) hm
+  have hsub : ∀ x ∈ (List.range 65536).map (fun i => (nextTid s.tid + i) % 65536), x ∈ s.pending.map (·.1) := by
+    intro x hx
+    simp only [List.mem_map, List.mem_range] at hx
+    obtain ⟨i, hi, rfl⟩ := hx
+    exact hall i (by omega)
+  have := sub_len _ _ (cand_nodup (nextTid s.tid) 65536 (Nat.le_refl _)) hsub
+  simp only [List.length_map, List.length_range] at this
+  omega
+
+/-- the form used below: the side condition is needed for the dict manager only (the FIFO manager never looks at
+    transaction ids) -/
+theorem fresh_if_room (v : Variant) (s : State) (h : v = .dict → s.pending.length < 65536) : Fresh v s :=
+  fun hv => alloc_fresh v s (h hv) hv
+
+/-- the table is not larger than the set of outstanding requests -/
+theorem pending_le_outstanding {v : Variant} {s : State} {evs : List Event} (h : Inv v s evs) :
+    s.pending.length ≤ (Spec.outstanding evs).length := by
+  have h1 : ∀ x ∈ pendingIds s, x ∈ (Spec.outstanding evs).map (·.1) := by
+    intro x hx
+    simp only [pendingIds, List.mem_map] at hx
+    obtain ⟨p, hp, rfl⟩ := hx
+    exact List.mem_map.2 ⟨_, pending_outstanding h hp, rfl⟩
+  have := sub_len _ _ h.pend_nodup h1
+  simpa [pendingIds] using this
+
+/-- while fewer than 65536 requests are outstanding the next transaction id is not in the table -/
+theorem fresh_of_room {v : Variant} {s : State} {evs : List Event} (h : Inv v s evs)
+    (hw : Spec.Room evs) : Fresh v s :=
+  alloc_fresh v s (Nat.lt_of_le_of_lt (pending_le_outstanding h) hw)
+
+theorem complete_bump_fail {v : Variant} {s : State} {evs : List Event} (hc : Complete s evs) :
+    Complete (bump v s) (evs ++ [.sent s.nextId (allocTid v s), .errback s.nextId .notConnected]) := by
   intro i hi
   simp only [bump] at hi
   simp only [fired_append, List.mem_append, fired_sent, fired_eb, fired_nil, List.mem_cons, List.mem_nil_iff,
@@ -925,9 +1018,9 @@ theorem complete_bump_fail {s : State} {evs : List Event} (hc : Complete s evs) 
 
 theorem complete_bump_add {v : Variant} {s : State} {evs : List Event} (r : Req) (hc : Complete s evs)
     (hf : Fresh v s) :
-    Complete (add v (bump s) ((s.tid + 1) % 65536) ⟨s.nextId, r⟩) (evs ++ [.sent s.nextId ((s.tid + 1) % 65536)]) := by
-  obtain ⟨l1, l2, hadd, hcase⟩ := add_eq v (bump s) ((s.tid + 1) % 65536) ⟨s.nextId, r⟩
-  have hbp : (bump s).pending = s.pending := rfl
+    Complete (add v (bump v s) (allocTid v s) ⟨s.nextId, r⟩) (evs ++ [.sent s.nextId (allocTid v s)]) := by
+  obtain ⟨l1, l2, hadd, hcase⟩ := add_eq v (bump v s) (allocTid v s) ⟨s.nextId, r⟩
+  have hbp : (bump v s).pending = s.pending := rfl
   rw [hbp] at hcase
   rw [hadd]
   rcases hcase with ⟨e1, e2, _⟩ | ⟨hv, e0, e1, _⟩
@@ -996,7 +1089,8 @@ theorem complete_execute {v : Variant} (r : Req) : ∀ {s : State} {evs : List E
       exact ih h1 (fun h => by rw [bump_connected, hcn] at h; cases h)
 
 theorem complete_reply {v : Variant} {s : State} {evs : List Event} (t tag : Nat) (hc : Complete s evs)
-    (hf : Fresh v s) : Complete (reply v s t tag).1 (evs ++ (reply v s t tag).2) := by
+    (hroom : v = .dict → s.pending.length < 65536) :
+    Complete (reply v s t tag).1 (evs ++ (reply v s t tag).2) := by
   unfold reply
   cases hg : (get v s t).1 with
   | none =>
@@ -1008,12 +1102,12 @@ theorem complete_reply {v : Variant} {s : State} {evs : List Event} (t tag : Nat
     rw [this]
     have h1 := complete_pop hc hp (.callback e.id t tag) rfl
     have hf' : Fresh v { s with pending := l1 ++ l2 } := by
-      intro hv hm
-      apply hf hv
-      simp only [keys, hp, List.map_append, List.map_cons, List.mem_append, List.mem_cons] at hm ⊢
-      rcases hm with hm | hm
-      · exact Or.inl hm
-      · exact Or.inr (Or.inr hm)
+      apply fresh_if_room
+      intro hv
+      have hroom := hroom hv
+      rw [hp] at hroom
+      simp only [List.length_append, List.length_cons] at hroom ⊢
+      omega
     simp only
     unfold fireOk
     split
@@ -1039,11 +1133,12 @@ theorem complete_connectionLost {v : Variant} {s : State} {evs : List Event} (h 
     exact List.mem_filterMap.2 ⟨_, h7 i (by omega) hi, rfl⟩
 
 theorem complete_step {v : Variant} {s : State} {evs : List Event} (op : Op) (h : Inv v s evs)
-    (hc : Complete s evs) (hf : Fresh v s) : Complete (step v s op).1 (evs ++ (step v s op).2) := by
+    (hc : Complete s evs) (hroom : v = .dict → s.pending.length < 65536) :
+    Complete (step v s op).1 (evs ++ (step v s op).2) := by
   cases op with
   | connectionMade => simp only [step, List.append_nil]; exact hc
-  | execute r => exact complete_execute r hc (fun _ => hf)
-  | reply t tag => exact complete_reply t tag hc hf
+  | execute r => exact complete_execute r hc (fun _ => fresh_if_room v s hroom)
+  | reply t tag => exact complete_reply t tag hc hroom
   | connectionLost => exact complete_connectionLost h hc
   | close b =>
     intro i hi
@@ -1183,24 +1278,42 @@ theorem failsWhenDown_step {v : Variant} {s : State} {pre : List Event} (h : Inv
 
 theorem outstanding_sorted {v : Variant} {s : State} {evs : List Event} (h : Inv v s evs) :
     (Spec.outstanding evs).Pairwise (fun a b => a.1 < b.1) := by
-  simp only [Spec.outstanding, h.sents_eq]
+  simp only [Spec.outstanding]
   apply List.Pairwise.filter
-  rw [List.pairwise_map]
-  exact List.Pairwise.imp (fun h => h) List.pairwise_lt_range
+  have := h.sent_ids
+  have hp : ((sents evs).map (·.1)).Pairwise (· < ·) := by rw [this]; exact List.pairwise_lt_range
+  rw [List.pairwise_map] at hp
+  exact hp
 
-theorem distinct_of_noWrap {v : Variant} {s : State} {evs : List Event} (h : Inv v s evs)
-    (hw : Spec.NoWrap evs) : Spec.Distinct evs := by
+theorem snd_unique {l : List (Nat × Entry)} (hn : (l.map (·.1)).Nodup) {a : Nat} {b b' : Entry}
+    (h1 : (a, b) ∈ l) (h2 : (a, b') ∈ l) : b = b' := by
+  induction l with
+  | nil => simp at h1
+  | cons x r ih =>
+    simp only [List.map_cons, List.nodup_cons] at hn
+    simp only [List.mem_cons] at h1 h2
+    rcases h1 with h1 | h1 <;> rcases h2 with h2 | h2
+    · rw [← h1] at h2; exact (Prod.mk.inj h2).2.symm ▸ rfl
+    · exfalso; apply hn.1; rw [← h1]; exact List.mem_map.2 ⟨_, h2, rfl⟩
+    · exfalso; apply hn.1; rw [← h2]; exact List.mem_map.2 ⟨_, h1, rfl⟩
+    · exact ih hn.2 h1 h2
+
+/-- while no deferred has been dropped, the outstanding requests carry pairwise distinct transaction ids: they
+    are the keys of the table -/
+theorem distinct_of_complete {s : State} {evs : List Event} (h : Inv .dict s evs) (hc : Complete s evs) :
+    Spec.Distinct evs := by
   unfold Spec.Distinct List.Nodup
   rw [List.pairwise_map]
   have hs := outstanding_sorted h
-  rw [List.Pairwise.imp_mem] at hs ⊢  
+  rw [List.Pairwise.imp_mem] at hs ⊢
   refine List.Pairwise.imp ?_ hs
-  intro a b hab ha hb
+  intro a b hab ha hb heq
   have hlt := hab ha hb
-  have wa := hw a ha
-  have wb := hw b hb
-  rw [sents_length h] at wa wb
-  rw [mem_outstanding h] at ha hb
+  obtain ⟨ea, ma, ia⟩ := outstanding_pending h hc ha
+  obtain ⟨eb, mb, ib⟩ := outstanding_pending h hc hb
+  rw [heq] at ma
+  have := snd_unique (h.keys_nodup rfl) ma mb
+  rw [this] at ia
   omega
 
 /-! ### a solicited reply is delivered -/
@@ -1360,8 +1473,8 @@ theorem never_fires {v : Variant} {s : State} {evs : List Event} (h : Inv v s ev
     i ∉ fired (run v s ops).2 ∧ i ∉ pendingIds (run v s ops).1 := by
   -- pretend `i` failed now: the invariant still holds, and is preserved by the history
   have hfake : Inv v s (evs ++ [.errback i .notConnected]) := by
-    obtain ⟨g1, g2, g3, g4, g5, g6, g7, g8, g9, g10, g11, g12⟩ := h
-    refine ⟨g1, by simpa using g2, g3, ?_, g5, ?_, g7, ?_, g9, ?_, ?_, ?_⟩
+    obtain ⟨g2, g3, g4, g5, g6, g7, g8, g9, g10, g11, g12⟩ := h
+    refine ⟨by simpa using g2, by simpa using g3, ?_, g5, ?_, g7, ?_, g9, ?_, ?_, ?_⟩
     · intro j hj
       simp only [fired_append, fired_eb, fired_nil, List.mem_append, List.mem_cons, List.mem_nil_iff, or_false] at hj
       rcases hj with hj | hj
@@ -1379,7 +1492,7 @@ theorem never_fires {v : Variant} {s : State} {evs : List Event} (h : Inv v s ev
       exact h2 (List.mem_map.2 ⟨p, hp, e⟩)
     · intro hv c hc
       simp only [cbs_append, cbs_eb, cbs_nil, List.append_nil] at hc
-      exact g10 hv c hc
+      simpa using g10 hv c hc
     · intro hv
       simpa using g11 hv
     · intro e he
@@ -1411,18 +1524,26 @@ theorem dictSet_fresh {l : List (Nat × Entry)} {k : Nat} (e : Entry) (h : k ∉
 def wrapTable (n : Nat) : List (Nat × Entry) := (List.range n).map (fun i => ((i + 1) % 65536, ⟨i, .plain⟩))
 def wrapTrace (n : Nat) : List Event := (List.range n).map (fun i => Event.sent i ((i + 1) % 65536))
 
+theorem Old.run_append {v : Variant} : ∀ (a b : List Op) (s : State),
+    Old.run v s (a ++ b) = ((Old.run v (Old.run v s a).1 b).1, (Old.run v s a).2 ++ (Old.run v (Old.run v s a).1 b).2) := by
+  intro a
+  induction a with
+  | nil => intro b s; simp [Old.run]
+  | cons op a ih => intro b s; simp [Old.run, ih, List.append_assoc]
+
+/-- the mutant (ids modulo 65536, table not consulted) -/
 theorem run_fill (n : Nat) (hn : n ≤ 65536) :
-    run .dict ⟨0, [], true, 0⟩ (List.replicate n (.execute .plain)) =
+    Old.run .dict ⟨0, [], true, 0⟩ (List.replicate n (.execute .plain)) =
       (⟨n % 65536, wrapTable n, true, n⟩, wrapTrace n) := by
   induction n with
   | zero => rfl
   | succ n ih =>
-    rw [List.replicate_succ', run_append, ih (by omega)]
+    rw [List.replicate_succ', Old.run_append, ih (by omega)]
     have hfresh : (n % 65536 + 1) % 65536 ∉ (wrapTable n).map (·.1) := by
       simp only [wrapTable, List.map_map, List.mem_map, List.mem_range, Function.comp]
       rintro ⟨i, hi, he⟩
       omega
-    simp only [run, step, execute, issue, if_true, add, List.append_nil]
+    simp only [Old.run, Old.step, Old.execute, Old.issue, nextTid, if_true, add, List.append_nil]
     rw [dictSet_fresh _ hfresh]
     simp only [wrapTable, wrapTrace, List.range_succ, List.map_append, List.map_cons, List.map_nil]
     have e1 : (n % 65536 + 1) % 65536 = (n + 1) % 65536 := by omega
@@ -1441,12 +1562,35 @@ theorem fired_wrapTrace (n : Nat) : fired (wrapTrace n) = [] := by
 /-- one more request after `m + 1` unanswered ones, when `m + 1` is a multiple of 65536: the transaction id
     of request 0 is issued again and the new deferred replaces the old one in the table -/
 theorem run_wrap (m : Nat) (hm : m + 1 ≤ 65536) (hmod : (m + 1) % 65536 = 0) :
-    run .dict ⟨0, [], true, 0⟩ (List.replicate (m + 1 + 1) (.execute .plain)) =
+    Old.run .dict ⟨0, [], true, 0⟩ (List.replicate (m + 1 + 1) (.execute .plain)) =
       (⟨1, (1, ⟨m + 1, .plain⟩) :: (List.range m).map (fun i => ((i + 1 + 1) % 65536, ⟨i + 1, .plain⟩)), true, m + 1 + 1⟩,
        wrapTrace (m + 1) ++ [.sent (m + 1) 1]) := by
-  rw [List.replicate_succ', run_append, run_fill (m + 1) hm, hmod, wrapTable_succ]
+  rw [List.replicate_succ', Old.run_append, run_fill (m + 1) hm, hmod, wrapTable_succ]
   have h4 : ((0 + 1) % 65536 : Nat) = 1 := rfl
-  simp only [run, step, execute, issue, if_true, add, List.append_nil, h4, dictSet]
+  simp only [Old.run, Old.step, Old.execute, Old.issue, nextTid, if_true, add, List.append_nil, h4, dictSet]
+
+theorem sents_wrapTrace (n : Nat) : sents (wrapTrace n) = (List.range n).map (fun i => (i, (i + 1) % 65536)) := by
+  simp only [wrapTrace, sents, List.filterMap_map]
+  induction (List.range n) with
+  | nil => rfl
+  | cons x r ih => simp only [List.filterMap_cons, List.map_cons, Function.comp, Event.sentOf, ih]
+
+/-- the loop of `connectionLost` (mutant model) over a table of requests without continuations: exactly the
+    entries of the table are failed -/
+theorem Old.lostLoop_plain : ∀ (l : List (Nat × Entry)) (s : State), s.pending = l → (∀ p ∈ l, p.2.k = .plain) →
+    (Old.lostLoop .dict (l.map (·.1)) s).2 = l.map (fun p => Event.errback p.2.id .lost) ∧
+    (Old.lostLoop .dict (l.map (·.1)) s).1.pending = [] := by
+  intro l
+  induction l with
+  | nil => intro s hp _; exact ⟨rfl, hp⟩
+  | cons x r ih =>
+    intro s hp hk
+    obtain ⟨k0, e⟩ := x
+    have hg := get_head (v := .dict) (s := s) (k := k0) hp (fun _ => rfl)
+    have he : e.k = .plain := hk (k0, e) (by simp)
+    obtain ⟨a, b⟩ := ih { s with pending := r } rfl (fun p hp' => hk p (by simp [hp']))
+    simp only [List.map_cons, Old.lostLoop, hg, Old.fireErr, he, Req.errK, List.cons_append, List.nil_append]
+    exact ⟨by rw [a], b⟩
 
 theorem run_invariant {v : Variant} (I : State → List Event → Prop)
     (H : List Event → Bool → Op → List Event → Prop)
@@ -1469,14 +1613,14 @@ theorem run_invariant {v : Variant} (I : State → List Event → Prop)
 /-! ### keys of the table after `execute` / a reply -/
 
 theorem execute_keys {v : Variant} (r : Req) (s : State) :
-    ∀ k ∈ keys (execute v s r).1, k ∈ keys s ∨ k = (s.tid + 1) % 65536 := by
+    ∀ k ∈ keys (execute v s r).1, k ∈ keys s ∨ k = allocTid v s := by
   intro k hk
   cases hc : s.connected with
   | true =>
     rw [execute_connected r hc, issue_connected r hc] at hk
-    obtain ⟨l1, l2, hadd, hcase⟩ := add_eq v (bump s) ((s.tid + 1) % 65536) ⟨s.nextId, r⟩
+    obtain ⟨l1, l2, hadd, hcase⟩ := add_eq v (bump v s) (allocTid v s) ⟨s.nextId, r⟩
     rw [hadd] at hk
-    have hbp : (bump s).pending = s.pending := rfl
+    have hbp : (bump v s).pending = s.pending := rfl
     rw [hbp] at hcase
     simp only [keys, List.map_append, List.map_cons, List.mem_append, List.mem_cons] at hk ⊢
     rcases hcase with ⟨e1, e2, _⟩ | ⟨_, e0, e1, _⟩
@@ -1499,7 +1643,8 @@ theorem execute_keys {v : Variant} (r : Req) (s : State) :
 
 /-- a second reply with the same transaction id finds nothing (unless that very id has just been issued
     again by the callback of the first one) -/
-theorem reply_removes_key {s : State} (hn : (keys s).Nodup) (t tag : Nat) (ht : (s.tid + 1) % 65536 ≠ t) :
+theorem reply_removes_key {s : State} (hn : (keys s).Nodup) (t tag : Nat)
+    (ht : allocTid .dict (get .dict s t).2 ≠ t) :
     t ∉ keys (reply .dict s t tag).1 := by
   unfold reply
   cases hg : (get .dict s t).1 with
@@ -1513,6 +1658,7 @@ theorem reply_removes_key {s : State} (hn : (keys s).Nodup) (t tag : Nat) (ht : 
   | some e =>
     obtain ⟨l1, k', l2, hp, hs', hd, _⟩ := get_some hg
     have : get .dict s t = (some e, { s with pending := l1 ++ l2 }) := Prod.ext hg hs'
+    rw [hs'] at ht
     rw [this]
     obtain ⟨rfl, hk1⟩ := hd rfl
     have hnot : k' ∉ keys { s with pending := l1 ++ l2 } := by
